@@ -1,6 +1,7 @@
 /-
 M-Ext: executable model of defcon's external-change support, as the code stands after the C05 fixes
-(repo_fixes/C05-*.diff):
+(repo_fixes/C05-*.diff, round 3: C05-r3-1 renamed glyph drops the old file's stamp, C05-r3-2 reloadImages /
+reloadData drop a pending deletion):
 
 * stamping        `Font._stamp*DataState`, `Layer._stampGlyphDataState`, `LayerSet._stampLayerInfoDataState`,
                   the `onDisk / onDiskModTime / onDiskDigest` fields of image and data entries
@@ -8,9 +9,10 @@ M-Ext: executable model of defcon's external-change support, as the code stands 
                   ImageSet, DataSet (modification-time gate, then bytes)
 * reloading       `reloadInfo/Kerning/Groups/Features/Lib/Images/Data/Layers`, `Layer.reloadGlyphs`
 * what they rest on: the lazy getters, glyph bookkeeping of a layer (`_keys`, `_glyphs`,
-  `_scheduledForDeletion`, the bound glyph set with its `contents` snapshot), the layer set (order,
-  default, action history), image/data entries, the in-place `Font.save`, and the UFO on disk with a
-  modification time per file, edited by "another program" (the `x…` operations).
+  `_scheduledForDeletion`, the bound glyph set with its `contents` snapshot; creating, deleting and
+  renaming glyphs), the layer set (order, default, action history), image/data entries, the
+  in-place `Font.save`, save-as, and the UFO on disk with a modification time per file, edited by
+  "another program" (the `x…` operations).
 
 A file's content is an opaque `Blob` (0 = the empty value; the bytes ufoLib writes for a value and
 the value it reads from bytes are identified, see the assumptions of harness/props/c05.py).
@@ -300,11 +302,13 @@ def existsAnywhere (s : State) (gn : String) : Bool :=
     | some l => inLayer l gn
 
 /-- the stamp recorded for a file that is being scheduled for deletion (F9 fix): the stamp of the
-loaded glyph if it carries one, else the state of the file as the bound glyph set sees it -/
-def schedStamp (s : State) (l : MLayer) (b : GS) (gn : String) : Except Err (Option File) :=
+loaded glyph if it carries one, else the state of the file as the bound glyph set sees it; when the
+file cannot be read (the glyph set belongs to a reader that was closed) there is no state to record
+and the deletion works all the same -/
+def schedStamp (s : State) (l : MLayer) (b : GS) (gn : String) : Option File :=
   match (AL.get? l.glyphs gn).bind (·.stamp) with
-  | some f => .ok (some f)
-  | none => if !b.alive then .error .filesystemClosed else .ok (glifOf (view s) b.lname gn)
+  | some f => some f
+  | none => if !b.alive then none else glifOf (view s) b.lname gn
 
 /-- the end of `Layer.__delitem__`: the font's glyph-order callback reads the lib when the name is
 gone from every layer -/
@@ -324,10 +328,36 @@ def delGlyph (s : State) (ln gn : String) : State × Option Err :=
       | none => (afterDelete (setLayer s ln l1) gn, none)
       | some b =>
         if gn ∈ b.contents then
-          match schedStamp s l b gn with
-          | .ok st => (afterDelete (setLayer s ln { l1 with sched := AL.set l1.sched gn st }) gn, none)
-          | .error e => (setLayer s ln l1, some e)
+          (afterDelete (setLayer s ln { l1 with sched := AL.set l1.sched gn (schedStamp s l b gn) }) gn, none)
         else (afterDelete (setLayer s ln l1) gn, none)
+
+/-- the schedule after `_deleteGlyph(old)`: the name is scheduled for deletion, with the stamp of its
+file, when the bound glyph set lists it -/
+def schedAfterDelete (s : State) (l : MLayer) (gn : String) : List (String × Option File) :=
+  match l.gs with
+  | none => l.sched
+  | some b => if gn ∈ b.contents then AL.set l.sched gn (schedStamp s l b gn) else l.sched
+
+/-- `layer[old].name = new` (`Glyph._set_name` → `Layer._glyphNameChange`, after fix C05-r3-1).  The
+glyph is read first if it was not loaded.  The old name leaves the keys and — when the bound glyph
+set lists it — is scheduled for deletion with the stamp of its file.  The glyph object moves to the
+new name (replacing whatever the layer held there; a pending deletion of that name is dropped),
+dirty, and carries no stamp any more: it has neither been read from nor written to a file of its
+new name, so the new name exists in memory only until the next save.  The font's glyph-order
+callback reads the lib. -/
+def renameGlyph (s : State) (ln old new : String) : State × Option Err :=
+  match getGlyph s ln old with
+  | .error e => (s, some e)
+  | .ok (s1, g) =>
+    if old = new then (s1, none)
+    else
+      match getLayer s1 ln with
+      | none => (s1, some .keyError)
+      | some l =>
+        let l' := { l with glyphs := AL.set (AL.erase l.glyphs old) new ⟨g.value, true, none⟩
+                           keys := setAdd (setDel l.keys old) new
+                           sched := AL.erase (schedAfterDelete s1 l old) new }
+        (loadPart (setLayer s1 ln l') .lib, none)
 
 /-! ## The layer set -/
 
@@ -815,10 +845,11 @@ def seqE {α : Type} (f : State → α → State × Option Err) : State → List
     | (s1, some e) => (s1, some e)
     | (s1, none) => seqE f s1 xs
 
-/-- `reloadImages / reloadData` for one name -/
+/-- `reloadImages / reloadData` for one name (after fix C05-r3-2: a pending deletion of the name is
+dropped — it concerned the file that the one taken over now has replaced) -/
 def reloadFile (img : Bool) (s : State) (n : String) : State × Option Err :=
   let fs := getFS s img
-  let s1 := setFS s img { fs with entries := AL.set fs.entries n ({} : Entry) }
+  let s1 := setFS s img { entries := AL.set fs.entries n ({} : Entry), sched := AL.erase fs.sched n }
   match fsLoad s1 img n with
   | .error e => (s1, some e)
   | .ok (s2, _) => (s2, none)
@@ -1075,6 +1106,7 @@ inductive Op where
   | gnew (ln gn : String)
   | gset (ln gn : String) (v : Blob)
   | gdel (ln gn : String)
+  | grename (ln old new : String)
   | lnew (ln : String)
   | ldel (ln : String)
   | lorder (o : List String)
@@ -1137,6 +1169,7 @@ def step (s : State) : Op → State × Res
   | .gnew ln gn => ofExcept s (newGlyph s ln gn)
   | .gset ln gn v => ofExcept s (setGlyph s ln gn v)
   | .gdel ln gn => ofPair (delGlyph s ln gn)
+  | .grename ln old new => ofPair (renameGlyph s ln old new)
   | .lnew ln => ofExcept s (newLayer s ln)
   | .ldel ln => ofExcept s (delLayer s ln)
   | .lorder o => ofExcept s (setOrder s o)
